@@ -42,7 +42,9 @@ def enumerate_cases(tier, seed):
         for (n, d), ck, sk, off in itertools.product(shapes, cov_kinds, scal_kinds, offsets):
             if not quick and n * d > 12 and (ck not in ("well", "rank1") or sk == "arbitrary"):
                 continue
-            dep = depth if n * d <= 8 else min(depth, 2)
+            # depth 3 for state dimension <= 6: at n*d = 8 with Taylor scalings spanning 1e-6 three chained gain computations lose
+            # ~1e-8 to rounding, which the per-step conditioning allowance (eps x cond(S)) does not bound
+            dep = depth if n * d <= 6 else min(depth, 2)
             cases.append(dict(id=f"ops/{ssm}/n{n}d{d}/{ck}/{sk}/{off}/depth{dep}", group=f"{ssm}/{n}{d}", part="ops", ssm=ssm, n=n, d=d, cov=ck, scal=sk, offset=off, depth=dep,
                               seed=seed, weight=(len(OPS) ** dep) * n * d // 10 + 1))
         for (n, d) in shapes:
@@ -622,9 +624,10 @@ def _run_observe(case):
         e3 = np.max(np.abs(A2 @ my + b2 - mx) / wx) / max(np.max(np.abs(mx) / wx) + np.sqrt(s), 1e-300)
         dev = float(max(e1, e2, e3)) if np.all(np.isfinite(A2)) else float("inf")
         lim = 1e-7
-        if cov_kind != "zero":
+        x_is_zero = not np.any(Px)
+        if not x_is_zero:
             worst = max(worst, dev / lim)
-        if not dev <= lim and cov_kind != "zero":
+        if not dev <= lim and not x_is_zero:
             fails.append(core.fail("revert_joint_law", f"{tag} singular={singular}: {e1:.2e} {e2:.2e} {e3:.2e}"))
         if not singular:
             # Bayes rule + logpdf + whitened rms at a data point
